@@ -165,17 +165,25 @@ def lookupIn : List Frame → Bytes → Option Bytes
 /-- `none` is the "" the Go code returns for an unbound name -/
 def lookup (s : Scope) (k : Bytes) : Option Bytes := lookupIn s.stack k
 
-/-- loopLimitKey / loopIndexKey, prefixes of the keys under which a loop's frame records its limit
-    and index variables ("$" cannot occur in a Soy variable name) -/
+/-- prefixes of the keys under which a loop's frame records the variables of the loop ("$" cannot occur in
+    a Soy variable name).  scope.go keeps "$index:"+v and, under "$last:"+v, the TEXT of the test for the
+    last iteration, composed when the loop is entered; the model keeps the NAMES this text is made of
+    (limit, step, the loop variable's own local) and composes the pieces on demand (`looplast`): the
+    frames are not observable otherwise. -/
 def kLimit : Bytes := b!"$limit:"
 def kIndex : Bytes := b!"$index:"
+def kStep : Bytes := b!"$step:"
+def kVar : Bytes := b!"$var:"
 
-def pushForRange (s : Scope) (loopVar : Bytes) : (Bytes × Bytes) × Scope :=
+def pushForRange (s : Scope) (loopVar : Bytes) : (Bytes × Bytes × Bytes × Bytes) × Scope :=
   let n := s.n + 1
   let lv := jsname loopVar [] n
   let limit := jsname loopVar b!"Limit" n
-  let f := frameSet (frameSet (frameSet [] loopVar lv) (kLimit ++ loopVar) limit) (kIndex ++ loopVar) lv
-  ((lv, limit), { stack := f :: s.stack, n := n })
+  let step := jsname loopVar b!"Step" n
+  let index := jsname loopVar b!"Index" n
+  let f := frameSet (frameSet (frameSet (frameSet (frameSet [] loopVar lv) (kLimit ++ loopVar) limit) (kStep ++ loopVar) step)
+    (kIndex ++ loopVar) index) (kVar ++ loopVar) lv
+  ((lv, limit, step, index), { stack := f :: s.stack, n := n })
 
 def pushForEach (s : Scope) (loopVar : Bytes) : (Bytes × Bytes × Bytes × Bytes) × Scope :=
   let n := s.n + 1
@@ -186,9 +194,16 @@ def pushForEach (s : Scope) (loopVar : Bytes) : (Bytes × Bytes × Bytes × Byte
   let f := frameSet (frameSet (frameSet [] loopVar lv) (kLimit ++ loopVar) limit) (kIndex ++ loopVar) index
   ((lv, list, limit, index), { stack := f :: s.stack, n := n })
 
-/-- the JS variable of the limit / index of the (innermost) loop over `loopVar` -/
-def looplimit (s : Scope) (loopVar : Bytes) : Option Bytes := s.lookup (kLimit ++ loopVar)
+/-- the JS variable of the index of the (innermost) loop over `loopVar` -/
 def loopindex (s : Scope) (loopVar : Bytes) : Option Bytes := s.lookup (kIndex ++ loopVar)
+
+/-- the frame of the innermost loop over `loopVar` (the frame "$last:"+v is found in) -/
+def loopFrame : List Frame → Bytes → Option Frame
+  | [], _ => none
+  | f :: r, v =>
+    match frameGet? f (kIndex ++ v) with
+    | some _ => some f
+    | none => loopFrame r v
 
 end Scope
 
@@ -305,6 +320,20 @@ def orFail : Option (M Unit) → M Unit
 def identOrEmpty : Option Bytes → Piece
   | some g => .ident g
   | none => .fixed []
+
+/-- scope.looplast(v): the test for the last iteration of the innermost loop over `v` — a range loop:
+    `(v + step >= limit)`, a foreach: `(index == limit - 1)`; "" when `v` is no loop variable -/
+def looplast (sc : Scope) (v : Bytes) : List Piece :=
+  match Scope.loopFrame sc.stack v with
+  | none => []
+  | some f =>
+    match frameGet? f (Scope.kStep ++ v) with
+    | some step =>
+      [.fixed b!"(", identOrEmpty (frameGet? f (Scope.kVar ++ v)), .fixed b!" + ", .ident step, .fixed b!" >= ",
+        identOrEmpty (frameGet? f (Scope.kLimit ++ v)), .fixed b!")"]
+    | none =>
+      [.fixed b!"(", identOrEmpty (frameGet? f (Scope.kIndex ++ v)), .fixed b!" == ",
+        identOrEmpty (frameGet? f (Scope.kLimit ++ v)), .fixed b!" - 1)"]
 
 /-! ## literal values (visitGlobal ∘ nodeFromValue) -/
 
@@ -429,8 +458,7 @@ mutual
           fx b!"("; emit (identOrEmpty (sc.loopindex (loopVarOf args))); fx b!" == 0)"
         else if name == b!"isLast" then do
           let sc ← getScope
-          fx b!"("; emit (identOrEmpty (sc.loopindex (loopVarOf args))); fx b!" == "
-          emit (identOrEmpty (sc.looplimit (loopVarOf args))); fx b!" - 1)"
+          emits (looplast sc (loopVarOf args))
         else if name == b!"index" then do
           let sc ← getScope
           emit (identOrEmpty (sc.loopindex (loopVarOf args)))
@@ -695,13 +723,18 @@ mutual
         let initJs ← block (walkExpr sk o init)
         let incrJs ← block (walkExpr sk o incr)
         let sc ← getScope
-        let varIndex := (sc.pushForRange v).1.1
-        let varLimit := (sc.pushForRange v).1.2
+        let varName := (sc.pushForRange v).1.1
+        let varLimit := (sc.pushForRange v).1.2.1
+        let varStep := (sc.pushForRange v).1.2.2.1
+        let varIndex := (sc.pushForRange v).1.2.2.2
         setScope (sc.pushForRange v).2
         indentP; fx b!"var "; emit (.ident varLimit); fx b!" = "; emits limitJs; fx b!";"; nl
-        indentP; fx b!"for (var "; emit (.ident varIndex); fx b!" = "; emits initJs; fx b!"; "
-        emit (.ident varIndex); fx b!" < "; emit (.ident varLimit); fx b!"; "
-        emit (.ident varIndex); fx b!" += "; emits incrJs; fx b!") {"; nl
+        indentP; fx b!"var "; emit (.ident varStep); fx b!" = "; emits incrJs; fx b!";"; nl
+        -- isFirst / isLast / index count iterations, as they do in a foreach
+        indentP; fx b!"for (var "; emit (.ident varName); fx b!" = "; emits initJs; fx b!", "
+        emit (.ident varIndex); fx b!" = 0; "
+        emit (.ident varName); fx b!" < "; emit (.ident varLimit); fx b!"; "
+        emit (.ident varName); fx b!" += "; emit (.ident varStep); fx b!", "; emit (.ident varIndex); fx b!"++) {"; nl
         incIndent
         walkBody body
         decIndent
